@@ -26,6 +26,16 @@ def mx_cases(m: int, max_bytes: int = 0, dialects=None, start: int = 0) -> list:
     ]
 
 
+def cx_cases(m: int = 1, max_bytes: int = 0, dialects=None) -> list:
+    """comment-injected fixtures"""
+    return [
+        {"id": f"cx:{d}/{f}#{k}", "kind": "cx", "dialect": d, "file": f, "k": k, "stratum": f"cx:{d}"}
+        for d, f in corpus.fixtures(max_bytes)
+        if dialects is None or d in dialects
+        for k in range(m)
+    ]
+
+
 def hs_cases(dialects=None, every: int = 1) -> list:
     out = []
     n = len(hostile.strings())
@@ -80,6 +90,9 @@ def resolve(case: dict) -> dict:
     if k == "mx":
         base = corpus.fixture_text(case["dialect"], case["file"])
         return {"source": corpus.mutate(base, f"{case['dialect']}/{case['file']}#{case['k']}"), "dialect": case["dialect"], "templater": "raw", "context": None, "features": [], "sections": None}
+    if k == "cx":
+        base = corpus.fixture_text(case["dialect"], case["file"])
+        return {"source": corpus.commentize(base, f"{case['dialect']}/{case['file']}#{case['k']}"), "dialect": case["dialect"], "templater": "raw", "context": None, "features": [], "sections": None}
     if k == "hs":
         return {"source": hostile.strings()[case["n"]], "dialect": case["dialect"], "templater": "raw", "context": None, "features": [], "sections": None}
     if k == "jj":
